@@ -638,6 +638,7 @@ func genScript(r *rng.R, t *tb, extras []extra, likely []string, pkgs []Pkg, in 
 }
 
 func Generate(r *rng.R, tier string, n int, emit func(*common.Case)) {
+	Thorough = tier == "thorough"
 	for i := 0; i < n; i++ {
 		cr := r.Split()
 		sub := cr.U64()
